@@ -183,7 +183,8 @@ def observe(cmd, args):
         except InvalidRequirement: return "ok"
         snap = lambda r: (str(r), hash(r), sorted(r.extras), r.url, str(r.specifier), str(r.marker))
         s0 = snap(b0)
-        a.extras.add("zz-injected"); a.extras.add("zz-2")
+        try: a.extras.add("zz-injected"); a.extras.add("zz-2")
+        except AttributeError: return "ok"          # an immutable extras value cannot be edited: nothing to check
         try:
             if snap(b0) != s0: return "editing the extras of Requirement(%r) changed another Requirement object: %r -> %r" % (ta, s0[0], str(b0))
             if snap(Requirement(tb)) != s0: return "editing the extras of Requirement(%r) changed what %r parses to afterwards: %r" % (ta, tb, str(Requirement(tb)))
@@ -194,6 +195,11 @@ def observe(cmd, args):
         kind, seed, items = args[0], int(args[1]), list(args[2:])
         r = random.Random(seed); p = items[:]; r.shuffle(p)
         try:
+            if kind in ("set", "and", "req-clauses") and len(args) != 4:
+                # clauses that are == as specifiers but spelled differently collapse to the first supplied (finding D33, probed by the fixed
+                # four-argument cases): everything else - same operator with different versions included - must not depend on supply order
+                sp = [Specifier(x) for x in items]
+                if len({str(x) for x in sp}) != len(set(sp)): return "ok"
             if kind == "set":
                 a, c = SpecifierSet(",".join(items)), SpecifierSet(",".join(p))
                 obs = lambda s: (str(s), hash(s), len(s), sorted(map(str, s)), [s.contains(x) for x in ("1.0", "1.0.0", "2.0a1", "0.5", "1.5+x")], [str(x) for x in s.filter(["1.0", "2.0a1", "0.5", "3.0"])])
